@@ -800,8 +800,8 @@ def run(ctx):
     F = fill_cases(ctx)
     parts = os.environ.get('VERIF_PARTS')
     items = []
-    items += [('R', c) for c in balanced(A, 96 if not th else 320)]
-    items += [('W', c) for c in balanced(W, 32 if not th else 96)]
+    items += [('R', c) for c in balanced(A, 400 if not th else 1200)]
+    items += [('W', c) for c in balanced(W, 64 if not th else 192)]
     items += [('S', it) for it in S]
     items += [('Ggrid', None)]
     gshapes = [(d, n) for d in (1, 2, 3) for n in range(1, 7) if d * n <= 6]
@@ -837,8 +837,43 @@ def run(ctx):
         "MixedSolver, Collapse, SetDistribution on ensembles and tight/clip range modes are outside this check",
     ]
     ctx.pmap(_dispatch, items)
+    ctx.tally.samples = curated_samples(ctx)
     if ctx.tally.n.get('scripted_capped'):
         ctx.cap('%d scripted configurations stopped at 60000 executions' % ctx.tally.n['scripted_capped'])
+
+
+def curated_samples(ctx):
+    """a few literal executions, one per part, with what was observed"""
+    out = []
+    picks = [dict(ens='lattice', nbins=[2, 2], nested='Powell', box='shift', con='clamp/pure', pen='ramp', limits=[2, None], term='cog1',
+                  evalmon=True, map='copy', mode='steploop', cost='steps', seed=ctx.seed),
+             dict(ens='buckshot', dim=2, npts=3, nested='NM', box='unit', con=None, pen=None, limits=[None, 7], term='never',
+                  evalmon=False, map='rev', mode='stepsolve', cost='sphere', seed=ctx.seed),
+             dict(ens='sparsity', dim=1, npts=2, api='wrapper', nested='NM', box='unit', con=None, pen=None, limits=[3, None], term=None,
+                  evalmon=True, map='default', mode='solve', cost='sphere', seed=ctx.seed)]
+    for cfg in picks:
+        R = lab.execute(cfg)
+        rec = {'cfg': _short(cfg), 'violations': [d for s_, d in judge(R)]}
+        if R.error is None and R.solver is not None:
+            s = R.solver
+            rec.update({'starts': [R.trace.starts.get(i) for i in range(len(s._allSolvers))],
+                        'member_best_energies': [vec(e)[0] for e in s._all_bestEnergy], 'bestEnergy': vec(s.bestEnergy)[0],
+                        'bestSolution': vec(s.bestSolution), '_all_evals': [int(v) for v in s._all_evals], '_total_evals': int(s._total_evals),
+                        'real_cost_calls': len(R.trace.calls), 'map_calls': len(R.trace.map_sizes), 'member_iterations': len(R.trace.iters),
+                        'wrapper_return': [vec(v) for v in R.ret[:6]] if R.ret is not None else None})
+        else:
+            rec['error'] = R.error and list(R.error[:2])
+        out.append(rec)
+    ch = tree.ReplayChooser([2, 0, 1, 2])
+    cfg = dict(ens='buckshot', dim=2, npts=2, nested='NM', box='degen', con=None, pen=None, limits=[2, None], term='never', evalmon=False,
+               map='fwd', mode='solve', cost='sphere', seed=ctx.seed, scripted=True)
+    R = lab.execute(cfg, ch)
+    out.append({'scripted_cfg': _short(cfg), 'rand_answers': [t[0] for t in ch.trace], 'starts': [R.trace.starts.get(i) for i in range(2)],
+                'violations': [d for s_, d in judge(R)]})
+    from mystic.math.grid import gridpts
+    out.append({'gridpts': [[10, 11], [20, 21, 22]], 'returned': gridpts([[10, 11], [20, 21, 22]])})
+    out.append({'fillpts': fill_cases(ctx)[3], 'returned': _fill_one(fill_cases(ctx)[3])})
+    return out
 
 
 # ------------------------------------------------------------------ replay
